@@ -3,8 +3,9 @@ CONSTANTS
   MaxCmd = 2
   MaxVar = 1
   NCtx = 0
+  Nesting = FALSE
   HookKinds = {"none"}
 SPECIFICATION Spec
-INVARIANTS CommandsAfterDependencies StopsAtFailure FinalOK RunOnlyWhileStageRunning UpBeforeUse DownAfterAll OneUpAtATime
+INVARIANTS CommandsAfterDependencies StopsAtFailure FinalOK RunOnlyWhileStageRunning UpBeforeUse DownAfterAll OneUpAtATime NothingRunsAtReturn
 PROPERTY Terminates
 CHECK_DEADLOCK FALSE
